@@ -54,6 +54,17 @@ structure St where
   nNoTxRounding : Nat := 0
   nNoTxAux : Nat := 0
   nNoTxDust : Nat := 0
+  -- agg case
+  aRelay : Int := 0
+  aMaxInputs : Nat := 100
+  pins : List PInp := []
+  implSets : List (Int × Int × Option Int × List Nat) := []   -- deadline, budget, start, member idxs
+  prevMax : Int := 0            -- pub case derived from an agg case: highest rate already offered
+  fromAgg : Bool := false
+  nAgg : Nat := 0
+  nSets : Nat := 0
+  nRegroupStart : Nat := 0
+  nFiltered : Nat := 0
   lastPubFee : Option Int := none
   lastPubAtStart : Bool := false
   printedKnown : Nat := 0
@@ -368,6 +379,10 @@ def pubRes (s : St) (ws : List String) : IO St := do
         s ← monitor s "below-relay-floor" s!"tx published with fee {pfee} < fee at the relay rate {s.relay} = {feeAt s.relay}"
       if ffok && ffend != s.mfra then
         s ← monitor s "ceiling" s!"fee function ceiling {ffend} != MaxFeeRateAllowed {s.mfra}"
+      -- a regrouped set (derived from an aggregator case) must not be offered below a rate
+      -- already offered for one of its inputs, unless that rate is above the new ceiling
+      if s.fromAgg && s.prevMax ≤ s.mfra && pfee < feeAt s.prevMax then
+        s ← monitor s "regroup-rate-decreased" s!"tx of the regrouped set pays {pfee} < fee at the rate {s.prevMax} already offered for one of its inputs = {feeAt s.prevMax}"
       s := { s with lastPubFee := some pfee, lastPubAtStart := atStart, nontriv := s.nontriv + 1 }
   -- nothing is offered at the ceiling by the deadline: the bump/broadcast one block before the
   -- deadline (or later) fails with ErrNotEnoughBudget although the fee function is at the ceiling
@@ -385,6 +400,45 @@ def pubRes (s : St) (ws : List String) : IO St := do
   else s := { s with nNoEvent := s.nNoEvent + 1 }
   if err == "budget" then s := { s with nBudgetErr := s.nBudgetErr + 1 }
   return { s with opTxs := [] }
+
+/-- end of an aggregator case: compare the sets with the model (as a multiset) and judge them. -/
+def aggEnd (s : St) : IO St := do
+  let mut s := s
+  -- (X)
+  let model := (clusterInputs s.aRelay s.aMaxInputs s.pins).map
+    fun st => (st.deadline, setBudget st.inputs, setStart st.inputs, st.inputs.map (·.idx))
+  let sameLen := model.length == s.implSets.length
+  if !sameLen || !(s.implSets.all (fun x => model.contains x)) || !(model.all (fun x => s.implSets.contains x)) then
+    s ← mismatch s s!"ClusterInputs: model={model} impl={s.implSets}"
+  -- (S) from the pin lines and the implementation's sets only
+  let pinOf (k : Nat) : Option PInp := s.pins.find? (·.idx == k)
+  let feeAt (rate : Int) (w : Nat) : Int := Int.tdiv (rate * w) 1000
+  let sweepable (i : PInp) : Bool :=
+    !(decide (i.budget < feeAt s.aRelay i.wu)) && !(decide (i.budget < feeAt (i.start.getD 0) i.wu)) && !i.reqDust
+  let members := s.implSets.flatMap (fun x => x.2.2.2)
+  for i in s.pins do
+    let cnt := (members.filter (· == i.idx)).length
+    if sweepable i && cnt != 1 then
+      s ← monitor s "missing-input" s!"pending input {i.idx} (budget {i.budget}) is in {cnt} input sets"
+    if !sweepable i && cnt != 0 then
+      s ← monitor s "missing-input" s!"input {i.idx} cannot pay its minimum/starting fee or has a dust output but is in a set"
+    if !sweepable i then s := { s with nFiltered := s.nFiltered + 1 }
+  for (dl, bud, st, ids) in s.implSets do
+    let ms := ids.filterMap pinOf
+    let sum := ms.foldl (fun a i => a + i.budget) 0
+    if bud != sum then
+      s ← monitor s "budget-sum" s!"set {ids}: Budget()={bud}, sum of the inputs' budgets={sum}"
+    if ms.any (fun i => i.deadline != dl) then
+      s ← monitor s "deadline-mismatch" s!"set {ids} with deadline {dl} contains an input with another deadline"
+    if ids.length > s.aMaxInputs then
+      s ← monitor s "missing-input" s!"set {ids} has more than {s.aMaxInputs} inputs"
+    -- the regrouped set must not restart below a rate already offered for one of its inputs
+    let prev := ms.foldl (fun a i => max a (i.start.getD 0)) 0
+    if st.getD 0 < prev then
+      s ← monitor s "regroup-rate-decreased" s!"set {ids}: StartingFeeRate()={st.getD 0} but a member was already offered at {prev}"
+    if prev > 0 then s := { s with nRegroupStart := s.nRegroupStart + 1 }
+    s := { s with nSets := s.nSets + 1, nontriv := s.nontriv + 1 }
+  return s
 
 def step (s : St) (line : String) : IO St := do
   let s := { s with lines := s.lines + 1 }
@@ -417,7 +471,11 @@ def step (s : St) (line : String) : IO St := do
       let inDomain := decide (0 < rl) && decide (rl ≤ e)
       s := { s with inDomain := inDomain, ceilVal := e, callerStart := (optInt (kv? rest "start")).isSome,
                     nUnjudged := s.nUnjudged + (if inDomain then 0 else 1) }
+    if kind == "agg" then
+      s := { s with aRelay := (kvInt? rest "relay").getD 0, aMaxInputs := (kvNat? rest "maxinputs").getD 100,
+                    pins := [], implSets := [], nAgg := s.nAgg + 1 }
     if kind == "pub" then
+      s := { s with prevMax := (kvInt? rest "prevmax").getD 0, fromAgg := (kv? rest "from_agg").isSome }
       let script := (kv? rest "script").getD ""
       s := { s with
         req := { inputs := [], budget := (kvInt? rest "budget").getD 0,
@@ -431,7 +489,19 @@ def step (s : St) (line : String) : IO St := do
       if (kvInt? rest "dust").getD 0 != dustOf script then
         s ← mismatch s s!"dust limit of {script}: impl={(kv? rest "dust").getD "?"} table={dustOf script}"
     return s
-  | ["END"] => return s
+  | ["END"] => if s.kind == "agg" then aggEnd s else return s
+  | "pin" :: rest =>
+    let i : PInp := { idx := (kvNat? rest "idx").getD 0, budget := (kvInt? rest "budget").getD 0,
+                      deadline := (kvInt? rest "deadline").getD 0, start := optInt (kv? rest "start"),
+                      immediate := (kv? rest "immediate") == some "true",
+                      lt := (optInt (kv? rest "lt")).map Int.toNat, wu := (kvNat? rest "wu").getD 0,
+                      reqDust := (kv? rest "reqdust") == some "1" }
+    return { s with pins := s.pins ++ [i] }
+  | "set" :: rest =>
+    let ids := (parseList ((kv? rest "inputs").getD "-")).map (fun x => x.toNat?.getD 0)
+    return { s with ops := s.ops + 1,
+                    implSets := s.implSets ++ [((kvInt? rest "deadline").getD 0, (kvInt? rest "budget").getD 0,
+                                                optInt (kv? rest "start"), ids)] }
   | "mulf" :: a :: n :: d :: _ =>
     let s := { s with ops := s.ops + 1, nFloat := s.nFloat + 1 }
     let (some a, some n, some d) := (a.toInt?, n.toNat?, d.toNat?) | mismatch s "bad mulf"
@@ -600,6 +670,10 @@ def main : IO Unit := do
   IO.println s!"STAT no_tx_at_ceiling_rounding={s.nNoTxRounding}"
   IO.println s!"STAT no_tx_at_ceiling_aux_weight={s.nNoTxAux}"
   IO.println s!"STAT no_tx_at_ceiling_dust_fold={s.nNoTxDust}"
+  IO.println s!"STAT agg_cases={s.nAgg}"
+  IO.println s!"STAT agg_input_sets={s.nSets}"
+  IO.println s!"STAT agg_sets_with_previously_offered_member={s.nRegroupStart}"
+  IO.println s!"STAT agg_inputs_filtered_out={s.nFiltered}"
   IO.println s!"STAT pub_cases={s.nPub}"
   IO.println s!"STAT txs_seen={s.nTx}"
   IO.println s!"STAT txs_with_required_outputs={s.nReqTx}"
